@@ -1,5 +1,11 @@
-(* C18 - equivalent spellings: the standard-level variations handled by input cleaning. *)
-From Verif Require Import Lib.Base Model.Cfg Model.Url Model.Machine Model.Api Proofs.Cleaning.
+(* C18 - equivalent spellings canonicalize to the same string.
+   First the variations handled by input cleaning (surrounding whitespace, tab/newline); then, in the second half of this
+   file, the normal-form theorem for the ordinary web URL and its corollaries (scheme and host case, default / empty
+   port, inserted dot segments in every spelling) for every profile, the path step under repeated decoding, and the known
+   finding D24 as a refuted statement. Not proved: the query / fragment steps of repeated decoding (decided on the
+   implementation over all spellings): partial there. *)
+From Verif Require Import Lib.Base Lib.Utf8 Lib.GoStr Model.Cfg Gen.Tables Gen.Options Model.Sets Model.Url Model.Host Model.Machine Model.Api Model.Canon Proofs.Cleaning.
+From Verif Require Import Proofs.RecordInv Proofs.MachineInv Proofs.HostProofs Proofs.RoundTripBase Proofs.NormalFormPhases Proofs.NormalForm Proofs.SpellingProofs Proofs.SpellingDecode.
 
 (* surrounding C0/space bytes and embedded tab/newline bytes never change the result (diagnostics off) *)
 Theorem C18_cleaning_congruence : forall idna_raw c, c_report c = false -> c_fail c = false ->
@@ -18,5 +24,95 @@ Theorem C18_removal_on_valid_utf8 : forall a s, Lib.Utf8.valid_utf8 s = true -> 
 Proof. exact remove_tabnl_sv_valid. Qed.
 Print Assumptions C18_removal_on_valid_utf8.
 
-Example C18_nonvacuous : clean [32; 104; 9; 116; 10; 116; 112; 58; 32] = clean [104; 116; 116; 112; 58].
+Example C18_nonvacuous : Verif.Proofs.Cleaning.clean [32; 104; 9; 116; 10; 116; 112; 58; 32] = Verif.Proofs.Cleaning.clean [104; 116; 116; 112; 58].
 Proof. vm_compute. reflexivity. Qed.
+
+(* ================================================================================================================
+   THE NORMAL FORM OF AN ORDINARY WEB URL, and what follows for its spellings (Proofs/NormalFormPhases.v, NormalForm.v,
+   SpellingProofs.v, SpellingDecode.v).
+   comps: scheme, user, password, host text, optional port text, list of path segments, optional query, optional
+   fragment; text_of k is the URL text scheme://[user[:password]@]host[:port]/seg/seg...[?query][#fragment];
+   comps_ok: the grammar (a special non-file scheme in ANY letter case, credentials free of the userinfo set, a
+   non-empty visible-ASCII host without delimiters, a port of digits up to 65535 or none, segments of path characters -
+   dot segments and escapes allowed -, query and fragment of visible ASCII).
+   normal_form: Parse (text_of k) is an explicit record nf c k h (h the host parser's answer): lower-cased scheme,
+   nf_port (no port for empty digits or the scheme's default), norm_segs (dot-segment normalisation, every spelling of
+   "." and ".."), encoded query and fragment. Everything else is a corollary.
+   ================================================================================================================ *)
+Theorem C18_normal_form : forall idna_raw c, CfgRT c -> c_skipTrailSlash c = false -> forall k, comps_ok c k = true ->
+  Parse idna_raw c (text_of k) =
+  match parseHost idna_raw c (pre_host c k) (k_host k) false with
+  | Ok _ h => PUrl (nf c k h)
+  | Er _ e => PErr e
+  end.
+Proof. exact normal_form. Qed.
+Print Assumptions C18_normal_form.
+
+(* two texts of the grammar whose components agree up to scheme case, host parser result, denoted port, dot-segment
+   normalisation (and encoded query / fragment) parse to the same components, or both fail *)
+Theorem C18_spellings_parse_alike : forall idna_raw c, CfgRT c -> c_skipTrailSlash c = false -> forall k1 k2,
+  comps_ok c k1 = true -> comps_ok c k2 = true -> equiv_comps idna_raw c k1 k2 ->
+  same_result (Parse idna_raw c (text_of k1)) (Parse idna_raw c (text_of k2)).
+Proof. exact spelling. Qed.
+Print Assumptions C18_spellings_parse_alike.
+
+(* ... and so does EVERY profile whose configuration meets the premises (WhatWg included; repeated decoding and
+   sort-query included: the canonicalizer is a function of the record, it never reads the input text) *)
+Theorem C18_spellings_canonicalize_alike : forall idna_raw p, CfgRT (p_cfg p) -> c_skipTrailSlash (p_cfg p) = false ->
+  forall k1 k2 h, comps_ok (p_cfg p) k1 = true -> comps_ok (p_cfg p) k2 = true -> equiv_comps idna_raw (p_cfg p) k1 k2 ->
+  host_val idna_raw (p_cfg p) (k_host k1) = Some h ->
+  same_cres (ProfileParse idna_raw p (text_of k1)) (ProfileParse idna_raw p (text_of k2)).
+Proof. exact spelling_profile. Qed.
+Print Assumptions C18_spellings_canonicalize_alike.
+
+(* the individual differences the standard normalises *)
+Theorem C18_inserted_single_dot : forall A B dot, B <> [] ->
+  isDoubleDotPathSegment dot = false -> isSingleDotPathSegment dot = true ->
+  norm_segs (A ++ dot :: B) = norm_segs (A ++ B).
+Proof. exact norm_insert_dot. Qed.
+Print Assumptions C18_inserted_single_dot.
+
+Theorem C18_inserted_segment_and_double_dot : forall A B x dd, B <> [] ->
+  dotseg x = false -> isDoubleDotPathSegment dd = true ->
+  norm_segs (A ++ x :: dd :: B) = norm_segs (A ++ B).
+Proof. exact norm_insert_pop. Qed.
+Print Assumptions C18_inserted_segment_and_double_dot.
+
+Theorem C18_host_letter_case : forall idna_raw c h1 h2,
+  c_lax c = false -> c_latin1 c = false -> c_pre c = HF_none -> c_post c = HF_none -> oracle_case_invariant idna_raw ->
+  not_bracket h1 -> str_lower h1 = str_lower h2 -> host_val idna_raw c h1 = host_val idna_raw c h2.
+Proof. exact host_val_case. Qed.
+Print Assumptions C18_host_letter_case.
+
+(* an empty port, the scheme's default port in any spelling (":80", ":080"), and two spellings of the same number *)
+Theorem C18_port_spellings : forall c lsch,
+  nf_port c lsch (Some []) = nf_port c lsch None /\
+  (forall d dp, getSpecialScheme c lsch = Some dp -> d <> [] -> Lib.GoStr.itoa (digits_val 10 d) = dp ->
+     nf_port c lsch (Some d) = nf_port c lsch None) /\
+  (forall d1 d2, d1 <> [] -> d2 <> [] -> digits_val 10 d1 = digits_val 10 d2 -> nf_port c lsch (Some d1) = nf_port c lsch (Some d2)).
+Proof. intros c lsch. split; [exact (nf_port_empty c lsch)|]. split; [exact (nf_port_default c lsch)|exact (nf_port_value c lsch)]. Qed.
+Print Assumptions C18_port_spellings.
+
+(* nested percent-encoding under repeated decoding, for the path: two non-opaque records that differ only in their
+   paths, with the same fully decoded segments, get the same result from the canonicalizer's path step *)
+Theorem C18_path_step_decoded_alike : forall idna_raw p u1 u2,
+  u_opaque u1 = false -> u_opaque u2 = false -> u_path u1 <> [] -> u_path u2 <> [] ->
+  eqi (set_path u1 [] false) (set_path u2 [] false) ->
+  map rd (u_path u1) = map rd (u_path u2) ->
+  orel (path_step idna_raw p u1) (path_step idna_raw p u2).
+Proof. exact path_step_same. Qed.
+Print Assumptions C18_path_step_decoded_alike.
+
+(* known finding D24 as a theorem about the model: http://h/a/%252e%252e/.. and http://h/a/../.. have the same fully
+   decoded segments and canonicalize to http://h/a/ and http://h/ under repeated decoding *)
+Theorem C18_nested_dot_segment_refuted :
+  exists segs1 segs2 t1 t2 u1 u2 s1 s2,
+    map rd segs1 = map rd segs2 /\
+    t1 = [104;116;116;112;58;47;47;104] ++ pathname_of segs1 /\ t2 = [104;116;116;112;58;47;47;104] ++ pathname_of segs2 /\
+    ProfileParse idna_toy copt_WithRepeatedPercentDecoding t1 = CUrl u1 /\
+    ProfileParse idna_toy copt_WithRepeatedPercentDecoding t2 = CUrl u2 /\
+    Href u1 false = Some s1 /\ Href u2 false = Some s2 /\
+    s1 = [104;116;116;112;58;47;47;104;47;97;47] /\ s2 = [104;116;116;112;58;47;47;104;47] /\ s1 <> s2 /\
+    norm_segs segs1 <> norm_segs segs2.
+Proof. exact decoded_segments_texts_refuted. Qed.
+Print Assumptions C18_nested_dot_segment_refuted.
